@@ -69,7 +69,12 @@ func reflectMainPrePatch(path string) (string, error) {
 // reflectMainPostPatch populates the name mapping with the final obfuscated->real name
 // mappings after all packages have been analyzed.
 func reflectMainPostPatch(file []byte, lpkg *listedPackage, pkg pkgCache) []byte {
-	obfVarName := hashWithPackage(lpkg, "_originalNamePairs")
+	// The injected variable is only renamed if the main package is obfuscated,
+	// which is not the case if e.g. GOGARBLE only selects some dependencies.
+	obfVarName := "_originalNamePairs"
+	if lpkg.ToObfuscate {
+		obfVarName = hashWithPackage(lpkg, obfVarName)
+	}
 	namePairs := fmt.Appendf(nil, "%s = []string{", obfVarName)
 
 	keys := slices.Sorted(maps.Keys(pkg.ReflectObjectNames))
